@@ -335,3 +335,140 @@ def inline_unknown(tree, known_functions, known_methods):
     il = Inliner(tree, set(known_functions), {k: set(v) for k, v in known_methods.items()})
     il.run()
     return tree, il.count
+
+
+# ----------------------------------------------------------------------------------------------------------------------
+def generators_to_lists(tree, known_functions):
+    """A module-level generator function the pinned tree does not have, every use of which is `list(G(..))` (consumed on
+    the spot), becomes the function that builds and returns that list:
+
+        def G(..):                                   def G(..):
+            for x in S:                                  out = []
+                yield E(x)                   ->          for x in S:
+            yield from (F(y) for y in T)                     out.append(E(x))
+                                                         for y in T:
+                                                             out.append(F(y))
+                                                         return out
+        X = list(G(a))                       ->      X = G(a)
+
+    The statements of the body run at the same point (list() drains the generator at once), in the same order, and the
+    result is a fresh list with the same elements.  Afterwards the ordinary inliner can put the helper back."""
+    gens = {}
+    for s in tree.body:
+        if isinstance(s, ast.FunctionDef) and s.name not in known_functions and not s.decorator_list:
+            own = []
+            stack = list(s.body)
+            while stack:
+                n = stack.pop()
+                if isinstance(n, (ast.FunctionDef, ast.AsyncFunctionDef, ast.Lambda, ast.ClassDef)):
+                    continue
+                if isinstance(n, (ast.Yield, ast.YieldFrom)):
+                    own.append(n)
+                stack.extend(ast.iter_child_nodes(n))
+            if own:
+                gens[s.name] = s
+    if not gens:
+        return tree
+    # every reference must be the call G(..) directly inside list(..)
+    parents = {}
+    for n in ast.walk(tree):
+        for c in ast.iter_child_nodes(n):
+            parents[id(c)] = n
+    ok = {g: True for g in gens}
+    sites = {g: [] for g in gens}
+    for n in ast.walk(tree):
+        if isinstance(n, ast.Name) and n.id in gens and isinstance(n.ctx, ast.Load):
+            call = parents.get(id(n))
+            outer = parents.get(id(call)) if call is not None else None
+            if isinstance(call, ast.Call) and call.func is n and isinstance(outer, ast.Call) and \
+                    isinstance(outer.func, ast.Name) and outer.func.id == 'list' and len(outer.args) == 1 and \
+                    outer.args[0] is call and not outer.keywords:
+                sites[n.id].append(outer)
+            elif isinstance(call, ast.Call) and call.func is n and isinstance(outer, ast.YieldFrom) and outer.value is call:
+                pass            # `yield from G2(..)` inside another generator: handled below when both convert
+            else:
+                ok[n.id] = False
+
+    def convert(fn):
+        out = 'out__g'
+        if any(isinstance(x, ast.Name) and x.id == out for x in ast.walk(fn)):
+            return None
+
+        def app(e, at):
+            c = ast.Expr(value=ast.Call(func=ast.Attribute(value=ast.Name(id=out, ctx=ast.Load()), attr='append', ctx=ast.Load()),
+                                        args=[e], keywords=[]))
+            return ast.fix_missing_locations(ast.copy_location(c, at))
+
+        def block(stmts):
+            res = []
+            for s_ in stmts:
+                if isinstance(s_, ast.Expr) and isinstance(s_.value, ast.Yield) and s_.value.value is not None:
+                    res.append(app(s_.value.value, s_))
+                    continue
+                if isinstance(s_, ast.Expr) and isinstance(s_.value, ast.YieldFrom):
+                    v = s_.value.value
+                    if isinstance(v, (ast.GeneratorExp, ast.ListComp)):
+                        body = [app(v.elt, s_)]
+                        for g in reversed(v.generators):
+                            if g.is_async:
+                                return None
+                            for c in reversed(g.ifs):
+                                body = [ast.copy_location(ast.If(test=c, body=body, orelse=[]), s_)]
+                            body = [ast.copy_location(ast.For(target=g.target, iter=g.iter, body=body, orelse=[]), s_)]
+                        res.extend(body)
+                        continue
+                    if isinstance(v, ast.Call) and isinstance(v.func, ast.Name) and v.func.id in gens and ok.get(v.func.id):
+                        c = ast.Expr(value=ast.Call(func=ast.Attribute(value=ast.Name(id=out, ctx=ast.Load()), attr='extend',
+                                                                       ctx=ast.Load()), args=[v], keywords=[]))
+                        res.append(ast.fix_missing_locations(ast.copy_location(c, s_)))
+                        continue
+                    return None
+                if isinstance(s_, ast.Return):
+                    if s_.value is not None:
+                        return None
+                    res.append(ast.copy_location(ast.Return(value=ast.Name(id=out, ctx=ast.Load())), s_))
+                    continue
+                if any(isinstance(x, (ast.Yield, ast.YieldFrom)) for x in ast.walk(s_)):
+                    if isinstance(s_, (ast.For, ast.While, ast.If)):
+                        if any(isinstance(x, (ast.Yield, ast.YieldFrom)) for h in ([s_.test] if not isinstance(s_, ast.For)
+                                                                                 else [s_.iter, s_.target]) for x in ast.walk(h)):
+                            return None
+                        b_, o_ = block(s_.body), block(s_.orelse)
+                        if b_ is None or o_ is None:
+                            return None
+                        s2 = copy.copy(s_)
+                        s2.body, s2.orelse = b_ or [ast.copy_location(ast.Pass(), s_)], o_
+                        res.append(s2)
+                        continue
+                    return None
+                res.append(s_)
+            return res
+        doc = [b for b in fn.body if isinstance(b, ast.Expr) and isinstance(b.value, ast.Constant) and isinstance(b.value.value, str)]
+        rest = [b for b in fn.body if b not in doc]
+        nb = block(rest)
+        if nb is None:
+            return None
+        init = ast.copy_location(ast.Assign(targets=[ast.Name(id=out, ctx=ast.Store())], value=ast.List(elts=[], ctx=ast.Load())), fn)
+        fin = ast.copy_location(ast.Return(value=ast.Name(id=out, ctx=ast.Load())), fn.body[-1])
+        new = copy.copy(fn)
+        new.body = doc + [init] + nb + [fin]
+        new.returns = None
+        return ast.fix_missing_locations(new)
+
+    changed = True
+    while changed:          # a generator that delegates to one that cannot be converted cannot be converted either
+        changed = False
+        for g, fn in gens.items():
+            if ok[g] and convert(copy.deepcopy(fn)) is None:
+                ok[g] = False
+                changed = True
+    for g, fn in gens.items():
+        if not ok[g] or not sites[g] and not any(ok[h] for h in gens if h != g):
+            continue
+        new = convert(fn)
+        tree.body[tree.body.index(fn)] = new
+        for outer in sites[g]:
+            inner = outer.args[0]
+            outer.func, outer.args, outer.keywords = inner.func, inner.args, inner.keywords
+    ast.fix_missing_locations(tree)
+    return tree
